@@ -651,9 +651,9 @@ def check_estimates_bounded_below(ck, cm, R):
             if not subs:
                 continue
             n += 1
-            top = r.value
+            top = e
             ok = isinstance(top, ast.Call) and isinstance(top.func, ast.Name) and top.func.id == "max" and len(top.args) >= 2 and \
-                any(not any(isinstance(y, ast.BinOp) and isinstance(y.op, ast.Sub) for y in ast.walk(safe_expand(fa, a, r))) for a in top.args)
+                any(not any(isinstance(y, ast.BinOp) and isinstance(y.op, ast.Sub) for y in ast.walk(a)) for a in top.args)
             ck.ob(R, fa.key(r, "estimate-bounded-below"), ok,
                   "the extrapolated size is bounded below by a measured one" if ok else
                   "`%s` extrapolates from a difference of two sample measurements and can come out negative (heavy rows in the small sample): the entry "
